@@ -26,10 +26,6 @@ def norm(s):
     return re.sub(r"\s+", "", s)
 
 
-F_RE = (r"self\.gn_geometric_function_f\(common_header\.hst,Area\((?P<area>[^()]*(?:\([^()]*\)[^()]*)*)\),"
-        r"self\.ego_position_vector\.latitude,self\.ego_position_vector\.longitude\)")
-
-
 def run(ctx):
     P = ctx.prog
     ctx.explanation = (
@@ -53,45 +49,43 @@ def run(ctx):
         dels = [s for s in sinks if s.kind == "deliver"]
         if not dels:
             raise AnalysisError(f"C07: {name} has no delivery sink")
-        dec = norm(pretty(unparse(fl.expand(h.decode_call, fl.state_at(h.decode_call)))))
+        con = h.fi.short()
+        # the evaluations of F at the ego position on the packet's own shape
+        egos = [c for c in _f_calls(ctx, h.fi, fl) if c.is_ego() and isinstance(c.x[0], ast.Attribute) and c.x[0].attr == "hst"
+                and _is_handler_param(ctx, h, c.x[0].value, "CommonHeader")]
         for i, s in enumerate(dels):
             st = fl.state_at(s.node)
             loc = f"{h.fi.module.rel}:{s.node.lineno}"
-            hit = None
-            for f in st.facts:
-                if f.kind == "cond" and f.pol:
-                    k = norm(pretty(f.xkey))
-                    m = re.fullmatch(F_RE + r">=0(\.0)?", k)
-                    if m:
-                        hit = m
-            ctx.ob("C07.deliver-iff-inside", h.fi.short(), f"deliver#{i}:guard", hit is not None,
+            facts = _xfacts(st)
+            hit = next((c for c in egos if facts & _nonneg_atoms(c.xcall)), None)
+            ctx.ob("C07.deliver-iff-inside", con, f"deliver#{i}:guard", hit is not None,
                    "delivery guarded by F(area from packet, packet's shape, ego position) >= 0" if hit else
                    "delivery is not guarded on every path by `gn_geometric_function_f(common_header.hst, <area decoded from the "
                    "packet>, ego lat, ego lon) >= 0` (inside or on the border)", loc)
             if hit:
-                kws = dict(p.split("=", 1) for p in _split_top(hit.group("area")))
-                for fld in ("latitude", "longitude", "a", "b", "angle"):
-                    ctx.ob("C07.deliver-iff-inside", h.fi.short(), f"deliver#{i}:area.{fld}", kws.get(fld) == f"{dec}.{fld}",
-                           f"Area.{fld} = `{kws.get(fld, '<absent>')[:70]}`; must be the packet's `{fld}` field", loc)
+                _area_from_packet(ctx, h, h.fi, hit.x[1], "C07.deliver-iff-inside", con, f"deliver#{i}:area", loc)
             kws = {kw.arg: kw.value for kw in s.node.keywords if kw.arg}
-            da = norm(pretty(unparse(fl.expand(kws.get("destination_area", ast.Constant(None)), st))))
-            ctx.ob("C07.deliver-iff-inside", h.fi.short(), f"deliver#{i}:indicated-area", da.startswith("Area(") and dec in da,
-                   f"indication carries the decoded destination area (`{da[:60]}`)", loc)
+            da = fl.expand(kws.get("destination_area", ast.Constant(None)), st)
+            ok_da = hit is not None and sem.cx(da) == sem.cx(hit.x[1])
+            ctx.ob("C07.deliver-iff-inside", con, f"deliver#{i}:indicated-area", ok_da,
+                   f"indication carries the decoded destination area (`{pretty(unparse(da))[:60]}`)" if ok_da else
+                   f"the indicated destination area `{pretty(unparse(da))[:60]}` is not the area the delivery decision was taken on", loc)
         # outside => never delivered: the only non-None values returned are the guarded constructions
+        guarded = {sem.cx(fl.expand(s.node, fl.state_at(s.node))) for s in dels}
         for k, s_, st in fl.exits:
             if k == "return" and s_.value is not None:
                 for alt in fl.alternatives(s_.value, st):
                     t = norm(pretty(unparse(alt)))
-                    ok = t == "None" or t.startswith("GNDataIndication(")
-                    ctx.ob("C07.deliver-iff-inside", h.fi.short(), f"return:{t[:24]}", ok,
-                           f"handler returns `{t[:60]}`", f"{h.fi.module.rel}:{s_.lineno}")
+                    ok = (isinstance(alt, ast.Constant) and alt.value is None) or sem.cx(alt) in guarded
+                    ctx.ob("C07.deliver-iff-inside", con, f"return:{t[:24]}", ok,
+                           f"handler returns `{t[:60]}`" + ("" if ok else " - neither None nor one of the guarded indications"),
+                           f"{h.fi.module.rel}:{s_.lineno}")
         if name == "gn_data_indicate_gac":
             for s in sinks:
                 if s.kind == "send":
-                    st = fl.state_at(s.node)
-                    outside = any(f.kind == "cond" and f.pol and re.fullmatch(r"0(\.0)?>" + F_RE, norm(pretty(f.xkey)))
-                                  for f in st.facts)
-                    ctx.ob("C07.deliver-iff-inside", h.fi.short(), "gac-forward-only-outside", outside,
+                    facts = _xfacts(fl.state_at(s.node))
+                    outside = any(facts & _neg_atoms(c.xcall) for c in egos)
+                    ctx.ob("C07.deliver-iff-inside", con, "gac-forward-only-outside", outside,
                            "GeoAnycast is forwarded only when the station is outside the area (F < 0)", f"{h.fi.module.rel}:{s.node.lineno}")
     ctx.floor("C07.deliver-iff-inside", 16)
     shapes(ctx)
@@ -203,7 +197,65 @@ def shapes(ctx):
     ctx.floor("C07.shape-formula", 9)
 
 
-SIZE_OK = r"self\.mib\.itsGnMaxGeoAreaSize\*1000000>=Router\._compute_area_size_m2\((cast\(.*?\),|.*?header_subtype,|common_header\.hst,)"
+def _strip_cast(e: ast.AST) -> ast.AST:
+    """typing.cast(T, x) is x."""
+    while isinstance(e, ast.Call) and (dotted(e.func) or "").split(".")[-1] == "cast" and len(e.args) == 2 and not e.keywords:
+        e = e.args[1]
+    return e
+
+
+def _size_guards(ctx, fi: FuncInfo, facts) -> list:
+    """[(within, shape arg, area arg)] for every guard fact comparing Router._compute_area_size_m2(shape, area) with
+    itsGnMaxGeoAreaSize km^2 expressed in m^2; within=True: size <= limit, False: size > limit."""
+    P = ctx.prog
+    size_fn = P.func(f"{ROUTER}._compute_area_size_m2")
+    limit = to_poly(P, fi.module, ast.parse("self.mib.itsGnMaxGeoAreaSize * 1000000", mode="eval").body)
+    out = []
+    for f in facts:
+        if f.kind != "cond" or not f.pol or not isinstance(f.xnode, ast.Compare) or len(f.xnode.ops) != 1:
+            continue
+        op, a, b = f.xnode.ops[0], f.xnode.left, f.xnode.comparators[0]
+        # facts are canonical: `X >= Y` / `X > Y`
+        if isinstance(op, ast.GtE):
+            lim, call, within = a, b, True
+        elif isinstance(op, ast.Gt):
+            lim, call, within = b, a, False
+        else:
+            continue
+        if not (isinstance(call, ast.Call) and (dotted(call.func) or "").split(".")[-1] == size_fn.name):
+            continue
+        r = P.resolve_expr_entity(fi.module, call.func)
+        if r is not size_fn and not (isinstance(call.func, ast.Attribute) and sem.cx(call.func.value) in ("self", "Router")):
+            continue
+        amap = G.bind_args(size_fn, call)      # a static method: no receiver parameter
+        if not amap or len(size_fn.params) < 2 or any(p_ not in amap for p_ in size_fn.params[:2]):
+            continue
+        try:
+            if to_poly(P, fi.module, lim) != limit:
+                continue
+        except Exception:
+            continue
+        out.append((within, _strip_cast(amap[size_fn.params[0]]), amap[size_fn.params[1]]))
+    return out
+
+
+def _packet_area(ctx, h, fi: FuncInfo, area_x) -> bool:
+    """area_x (fi's terms) is Area(every field = the decoded header's field)."""
+    P = ctx.prog
+    dec_cx = sem.cx(G.decoded_x(ctx, h))
+    if not isinstance(area_x, ast.Call):
+        return False
+    r = P.resolve_expr_entity(fi.module, area_x.func)
+    if not (isinstance(r, ClassInfo) and r.name == "Area"):
+        return False
+    given = G.bind_ctor(r, area_x)
+    if given is None:
+        return False
+    for fld in G.ctor_fields(r):
+        got = [sem.cx(x) for x in G.to_handler_terms(ctx, h, fi, given[fld])] if fld in given else []
+        if not got or any(g != f"{dec_cx}.{fld}" for g in got):
+            return False
+    return True
 
 
 def size_control(ctx, handlers):
@@ -211,25 +263,38 @@ def size_control(ctx, handlers):
     # origination
     fi = P.func(f"{ROUTER}.gn_data_request_gbc")
     fl = ctx.flows.get(fi)
+    req = fi.params[1]
+
+    def own_request(shape, area):
+        return sem.cx(shape) == f"{req}.packet_transport_type.header_subtype" and sem.cx(area) == f"{req}.area"
     n = 0
     for c in P.calls_in(fi):
         if G.is_ll_send(P, fi, c):
             n += 1
             st = fl.state_at(c)
-            ok = any(f.kind == "cond" and f.pol and re.match(SIZE_OK, norm(pretty(f.xkey))) and "request.area" in f.xkey for f in st.facts)
+            ok = any(w and own_request(sh, ar) for w, sh, ar in _size_guards(ctx, fi, st.facts))
             ctx.ob("C07.size-control", fi.short(), f"origin-send#{n}", ok,
                    "origination emits only when area size <= itsGnMaxGeoAreaSize km^2 (compared in m^2)" if ok else
                    "an origination send is reachable without the established guard `area_m2 <= itsGnMaxGeoAreaSize * 10^6`",
                    f"{fi.module.rel}:{c.lineno}")
     too_large = False
     for k, s, st in fl.exits:
-        if k == "return" and "GEOGRAPHICAL_SCOPE_TOO_LARGE" in unparse(s.value):
-            too_large = any(f.kind == "cond" and f.pol and "_compute_area_size_m2" in f.xkey and
-                            norm(pretty(f.xkey)).endswith(">self.mib.itsGnMaxGeoAreaSize*1000000") for f in st.facts)
+        if k != "return" or not isinstance(s.value, ast.Call):
+            continue
+        code = next((kw.value for kw in s.value.keywords if kw.arg == "result_code"), s.value.args[0] if s.value.args else None)
+        r = P.resolve_expr_entity(fi.module, code) if code is not None else None
+        if isinstance(r, tuple) and r[0] == "enum" and r[2] == "GEOGRAPHICAL_SCOPE_TOO_LARGE":
+            too_large = any((not w) and own_request(sh, ar) for w, sh, ar in _size_guards(ctx, fi, st.facts))
     ctx.ob("C07.size-control", fi.short(), "refusal-code", too_large,
            "over-size requests are refused with GEOGRAPHICAL_SCOPE_TOO_LARGE", fi.loc)
     gac = P.func(f"{ROUTER}.gn_data_request_gac")
-    ctx.ob("C07.size-control", gac.short(), "delegates", "returnself.gn_data_request_gbc(request)" in norm(unparse(gac.node)),
+    gfl = ctx.flows.get(gac)
+    exits = [(k, s) for k, s, _ in gfl.exits]
+    delegates = bool(exits) and all(
+        k == "return" and isinstance(s.value, ast.Call) and any(t is fi for t in P.call_targets(gac, s.value, count=False))
+        and (G.bind_args(fi, s.value) or {}).get(req) is not None
+        and sem.cx((G.bind_args(fi, s.value) or {}).get(req)) == gac.params[1] for k, s in exits)
+    ctx.ob("C07.size-control", gac.short(), "delegates", delegates,
            "GAC origination shares the GBC source operations (incl. the size guard)", gac.loc)
     # forwarders
     for name in ("gn_data_indicate_gbc", "gn_data_indicate_gac"):
@@ -239,11 +304,16 @@ def size_control(ctx, handlers):
                 continue
             fl = G.flow_for(ctx, s.fi, h)
             st = fl.state_at(s.node)
-            ok = any(f.kind == "cond" and f.pol and re.match(SIZE_OK, norm(pretty(f.xkey))) for f in st.facts)
+            ok = False
+            for w, sh, ar in _size_guards(ctx, s.fi, st.facts):
+                shapes_ = G.to_handler_terms(ctx, h, s.fi, sh)
+                if w and shapes_ and all(isinstance(x, ast.Attribute) and x.attr == "hst" and _is_handler_param(ctx, h, x.value, "CommonHeader")
+                                         for x in shapes_) and _packet_area(ctx, h, s.fi, ar):
+                    ok = True
             ctx.ob("C07.size-control", s.fi.short(), f"forward:{s.kind}#{s.node.lineno - s.fi.node.lineno}", ok,
                    "forwarding only for areas within itsGnMaxGeoAreaSize" if ok else
-                   "a forward is reachable without the established guard `area_m2 <= itsGnMaxGeoAreaSize * 10^6`",
-                   f"{s.fi.module.rel}:{s.node.lineno}")
+                   "a forward is reachable without the established guard `area_m2(packet's shape, packet's area) <= "
+                   "itsGnMaxGeoAreaSize * 10^6`", f"{s.fi.module.rel}:{s.node.lineno}")
     ctx.floor("C07.size-control", 9)
 
 
